@@ -220,6 +220,21 @@ def run(F, chk):
                                 inner = f
                                 site_loc = loc
                                 break
+                    if not missing and i < len(pc) and i < len(pr) and pc[i][:3] == pr[i][:3] and pc[i][3] != pr[i][3] and xe is not None:
+                        # only the enclosing loops differ: attribute to the function that contains the differing loop
+                        dl = [a_ for a_, b_ in zip(pc[i][3], pr[i][3]) if a_ != b_] or list(pc[i][3][len(pr[i][3]):]) or [None]
+                        if dl[0] and dl[0].startswith("each "):
+                            cont = dl[0][5:].split(" sized ")[0]
+                            for fid, loc in xe.chain:
+                                f = F.fns.get(fid)
+                                hit = [x for x in walk((f or {}).get("body") or {}) if x["k"] == "RangeFor" and show(x["range"]) == cont]
+                                if hit:
+                                    import flow as _flow
+                                    rsz = _flow.range_sizes(f.get("body"))
+                                    exact = [x for x in hit if "each %s%s" % (cont, (" sized " + rsz[id(x)]) if id(x) in rsz else "") == dl[0]]
+                                    hit = exact or hit
+                                    inner, site_loc = f, hit[0].get("loc") or loc
+                                    break
                     where_name = c08_strip(inner["name"]) if inner else cls
                     fld = (pc[i][1] if i < len(pc) else pr[i][1]) if (i < len(pc) or i < len(pr)) else "?"
                     if missing:
